@@ -255,7 +255,7 @@ def reader_tags(body):
         raise ExtractError(f"{SRC}: read_constant: `let tag = self.read_u8()?; match tag {{` not recognised")
     rest = body[mm.end():]
     arms = list(re.finditer(r"(?m)^\s*(\d+|_)\s*=>", rest))
-    tags, strlim = {}, None
+    tags, strlim, ptrlim = {}, None, None
     for k, a in enumerate(arms):
         seg = rest[a.end(): arms[k + 1].start() if k + 1 < len(arms) else len(rest)]
         if a.group(1) == "_":
@@ -280,11 +280,16 @@ def reader_tags(body):
             p_guard, p_alloc = seg.find("if len >"), seg.find("vec![0u8; len]")
             if p_alloc < 0 or p_guard > p_alloc or "InvalidUtf8" not in seg:
                 raise ExtractError(f"{SRC}: read_constant: string arm shape (guard before allocation, utf8 check) not recognised")
+        if kd == "ptr":
+            mp = re.search(r"let\s+raw\s*=\s*self\.read_u64\(\)\?\s*;\s*if\s+raw\s*>\s*(MAX_\w+)\s*\{\s*return\s+Err\(BinaryError::InvalidPointer\(raw\)\);\s*\}\s*let\s+ptr\s*=\s*raw\s+as\s+usize\s*;", seg)
+            if not mp:
+                raise ExtractError(f"{SRC}: read_constant: pointer payload guard (`if raw > MAX_POINTER_PAYLOAD`) before Value::ptr not recognised")
+            ptrlim = mp.group(1)
         tags[kd] = int(a.group(1))
     missing = [k for k, _, _ in RCONST_KINDS if k not in tags]
     if missing:
         raise ExtractError(f"{SRC}: read_constant: no arm for {missing}")
-    return tags, strlim
+    return tags, strlim, ptrlim
 
 
 def header_shape(text):
@@ -325,7 +330,7 @@ def gen_avbc_layout():
         raise ExtractError(f"{SRC}: MAGIC not recognised")
     magic = [ord(c) for c in mm.group(1)]
     maxes = ["MAX_BYTECODE_LEN", "MAX_CONSTANTS", "MAX_NESTED_FUNCTIONS", "MAX_UPVALUE_DESCRIPTORS", "MAX_LINES",
-             "MAX_GLOBAL_NAMES", "MAX_STRING_LEN", "MAX_NESTING_DEPTH", "MAX_SECTION_LEN"]
+             "MAX_GLOBAL_NAMES", "MAX_STRING_LEN", "MAX_NESTING_DEPTH", "MAX_SECTION_LEN", "MAX_POINTER_PAYLOAD"]
     c = consts_of(text, ["VERSION"] + maxes)
     header_shape(text)
     wf = fn_body(text, "write_function")
@@ -334,13 +339,14 @@ def gen_avbc_layout():
     wtags = writer_tags(fn_body(text, "write_constant"))
     rtoks, limits = reader_tokens(fn_body(text, "read_function"))
     first_diff(rtoks, READER_SHAPE, "read_function")
-    rtags, strlim = reader_tags(fn_body(text, "read_constant"))
+    rtags, strlim, ptrlim = reader_tags(fn_body(text, "read_constant"))
     lim = {}
     for what, key in LIMIT_KEYS.items():
         if what not in limits:
             raise ExtractError(f"{SRC}: read_function: limit check for {what!r} is missing")
         lim[key] = limits[what]
     lim["STRING_LEN"] = strlim
+    lim["PTR"] = ptrlim
     for v in lim.values():
         if v not in c:
             raise ExtractError(f"{SRC}: limit constant {v} is not one of the MAX_* constants")
@@ -350,7 +356,7 @@ def gen_avbc_layout():
     for n in maxes:
         out.append(f"Definition {n} : N := {c[n][0]}.\n")
     out.append("(* which limit guards which count in read_function / read_constant *)\n")
-    for key in ["DEPTH", "NAME_LEN", "CONSTS", "CODE", "NESTED", "UPVALS", "LINES", "GLOBALS", "GLOBAL_NAME_LEN", "STRING_LEN"]:
+    for key in ["DEPTH", "NAME_LEN", "CONSTS", "CODE", "NESTED", "UPVALS", "LINES", "GLOBALS", "GLOBAL_NAME_LEN", "STRING_LEN", "PTR"]:
         out.append(f"Definition LIM_{key} : N := {lim[key]}.\n")
     out.append("(* constant tags: as written by write_constant / as accepted by read_constant *)\n")
     for k in ["null", "bool", "int", "float", "string", "func", "ptr"]:
